@@ -113,10 +113,10 @@ class AFMWriter(ModelToText):
                     " to " + str(_range.max_value) + "]"
 
         if len(domain.get_element_list()) > 0:
-            result += "[" + ",".join(domain.get_element_list()) + "]"
+            result += "[" + ",".join(str(element) for element in domain.get_element_list()) + "]"
 
-        result += "," + attribute.get_default_value()
-        result += "," + attribute.get_null_value()
+        result += "," + str(attribute.get_default_value())
+        result += "," + str(attribute.get_null_value())
 
         return result
 
